@@ -92,16 +92,16 @@ def nest(program: list[dict], gi: int, subset: list[str], rng: random.Random, wn
         out_ren = [[mp[o], o] for o in sorted(out_names)]
     bound_outer = dict((k, v) for k, v in g.get("bound", []))
     inner_bound = []
+    def outside_default(k: str) -> bool:
+        for n in outer_nodes:
+            ren = dict(n.get("inRen", []))
+            for prm in n.get("params", []):
+                if ren.get(prm[0], prm[0]) == k and prm[1] is not None:
+                    return True
+        return False
+
     if bind_inner:
         # bindings of parameters consumed exclusively inside the subset move onto the inner graph
-        def outside_default(k: str) -> bool:
-            for n in outer_nodes:
-                ren = dict(n.get("inRen", []))
-                for prm in n.get("params", []):
-                    if ren.get(prm[0], prm[0]) == k and prm[1] is not None:
-                        return True
-            return False
-
         for k in list(bound_outer):
             # (a shared binding moves inside only when no outside consumer has its own signature default for the name: with one, the
             #  nested form is a different program — the outside consumer would take its default — and the constructor rejects the mix)
@@ -111,7 +111,9 @@ def nest(program: list[dict], gi: int, subset: list[str], rng: random.Random, wn
     if dup_bind:
         # the same name bound at both levels: the binding of the graph being run wins, exactly as flat.bind(k=decoy).bind(k=v) uses v
         for k, v in bound_outer.items():
-            if k in iface_in:
+            # (not when an outside consumer has its own signature default for the name: the constructor — which runs before bind() —
+            #  sees "default outside, bound inside" and rejects the mix as inconsistent fallbacks, by design)
+            if k in iface_in and not outside_default(k):
                 inner_bound.append([("in_" + k) if rename else k, v + 100 if isinstance(v, int) and not isinstance(v, bool) else 100])
     inner = {"name": f"inner_{wname}", "nodes": inner_nodes, "bound": inner_bound}
     wrapper = {"name": wname, "kind": "graph", "inner": gi, "inRen": in_ren, "outRen": out_ren}
